@@ -314,6 +314,38 @@ func callBloom(stream string, fl *wire.MsgFilterLoad, datas [][]byte, txs []*bch
 			f.Reload(&wire.MsgFilterLoad{HashFuncs: hf})
 			_ = f.Matches(d)
 			f.Add(d)
+			// round 4: successive filterload messages of DIFFERENT non-empty sizes on one object (a peer may send
+			// any number of them; the node reloads the filter it has), first smaller, then larger, then the
+			// original again; and a first message arriving on an object created unloaded / by NewFilter
+			// (anything derived from the bit array at construction time is stale after Reload)
+			n0 := 0
+			if fl != nil {
+				n0 = len(fl.Filter)
+			}
+			for _, sz := range []int{1, n0/2 + 1, n0 + 7, 2*n0 + 1} {
+				f.Reload(&wire.MsgFilterLoad{Filter: make([]byte, sz), HashFuncs: hf, Flags: wire.BloomUpdateAll})
+				_ = f.Matches(d)
+				f.Add(d)
+				_ = f.Matches(d)
+			}
+			f.Reload(cloneFL(fl))
+			_ = f.Matches(d)
+			f.Add(d)
+			f0 := bloom.LoadFilter(nil)
+			f0.Reload(cloneFL(fl))
+			_ = f0.Matches(d)
+			f0.Add(d)
+			f0.Reload(&wire.MsgFilterLoad{Filter: make([]byte, 3), HashFuncs: hf})
+			_ = f0.Matches(d)
+			f0.Add(d)
+			nf := bloom.NewFilter(10, 0, 0.01, wire.BloomUpdateAll)
+			nf.Add(d)
+			nf.Reload(&wire.MsgFilterLoad{Filter: make([]byte, 2), HashFuncs: hf})
+			_ = nf.Matches(d)
+			nf.Add(d)
+			nf.Reload(cloneFL(fl))
+			_ = nf.Matches(d)
+			nf.Add(d)
 			return nontriv
 		})
 		// correspondence with the checked model (NoPanic/BloomNP.v), small arrays only
